@@ -63,6 +63,7 @@ class St:
         self.comments = {"FirmwareId": "1053"}
         self.auth = {}            # tag -> descriptor
         self.counter = 0
+        self.prov = "fresh"       # were the current objects built by the caller or by the reader (after WriteRead)?
 
 
 def canon(st):
@@ -71,7 +72,9 @@ def canon(st):
                   for c in b.bf3file.components)
     auth = tuple((t, type(a).__name__, getattr(a, "key_selector", None), getattr(a, "version", None),
                   getattr(a, "config_security_code", None)) for t, a in b.auth_blocks.items())
-    return (comps, tuple(sorted(b.bf3file.comments.items())), auth)
+    # which component objects were produced by the reader (they may differ in ways the observable fields do not show)
+    return (comps, tuple(sorted(b.bf3file.comments.items())), auth, st.prov,
+            tuple(len(c.blob) for c in b.bf3file.components))
 
 
 def ref_comments(cfg):
@@ -201,6 +204,7 @@ def step(st, op):
         if any(isinstance(b, UnknownAuthBlock) for b in r.auth_blocks.values()) or list(r.auth_blocks) != list(bec.auth_blocks):
             o.viol("writeread|blocks", "auth blocks changed by write/read: %r" % (r.auth_blocks,))
         st.bec = r
+        st.prov = "read"
         check_components(st, o, what)
     else:
         raise ValueError(op)
